@@ -128,6 +128,17 @@ def run(tier, seed):
         ("invalid:input-stats-missing", ["PATH", "check", "sanity", "-i", os.path.join(tmp, "nope.json")], None),
         ("invalid:input-stats-extension", ["PATH", "check", "sanity", "-i", "EXT"], None),
     ]
+    # an invalid combination stays invalid whatever valid, orthogonal options accompany it
+    extras = [["-m"], ["-E", "3"], ["-e", "2"], ["--filter-its-stave", "L0_12"], ["--its-trigger-period", "5", "--filter-its-stave", "L0_12"],
+              ["-m", "-E", "7", "--its-trigger-period", "1", "--filter-its-stave", "L0_12"]]
+    for name, args, inp in list(special):
+        if name.startswith("invalid:"):
+            for k, ex in enumerate(extras):
+                if "-p" in args and "--its-trigger-period" in ex:
+                    continue
+                if "-E" in args and "-E" in ex:
+                    continue
+                special.append(("%s+%d" % (name, k), args + ex, inp))
     okpath = os.path.join(tmp, "in0.raw")
     extp = os.path.join(tmp, "stats.txt")
     open(extp, "w").write("{}")
